@@ -101,3 +101,29 @@ Proof.
 Qed.
 
 End Check.
+
+(* ---------- the side conditions under the names of the C01 brief ---------- *)
+(* what the real `restore_on_err` pass establishes *)
+Definition restore_ok (OG : ogrammar) (e : oexpr) : bool := rok OG (K OG) e.
+
+(* "the Spec evaluation never consults PEEK / POP on an empty stack", in its simplest (static) form: there is
+   no PEEK / POP at all.  The fragment with pp = true and this condition is the fragment with pp = false.  *)
+Fixpoint no_empty_stack_read (e : oexpr) : bool :=
+  match e with
+  | OIdent n => negb (str_eqb n (nm "PEEK") || str_eqb n (nm "POP"))
+  | OPosPred x | ONegPred x | OOpt x | ORep x | ORepOnce x | OPush x | ONodeTag x _ | ORestoreOnErr x => no_empty_stack_read x
+  | OSeq l r | OChoice l r => no_empty_stack_read l && no_empty_stack_read r
+  | _ => true
+  end.
+
+Lemma fragment_no_peek_pop OG extras uranges e :
+  in_fragment OG extras uranges true e = true -> no_empty_stack_read e = true ->
+  in_fragment OG extras uranges false e = true.
+Proof.
+  induction e; cbn [in_fragment no_empty_stack_read]; auto.
+  - unfold ident_ok. destruct (is_builtin n); [|auto]. intros _ H. rewrite H. reflexivity.
+  - intros H1 H2. apply andb_true_iff in H1. apply andb_true_iff in H2. apply andb_true_iff. tauto.
+  - intros H1 H2. apply andb_true_iff in H1. apply andb_true_iff in H2. apply andb_true_iff. tauto.
+  - intros H1 H2. apply andb_true_iff in H1. apply andb_true_iff. tauto.
+  - intros H1 H2. apply andb_true_iff in H1. apply andb_true_iff. tauto.
+Qed.
